@@ -9,6 +9,7 @@
 (*    Dlv   only if the spec's receiver delivers exactly that payload now,      *)
 (*    Dead  only if the spec's receiver gives up now,                           *)
 (*    HsDlv only with the verdict the spec reaches on the 256 bytes,            *)
+(*    Absorb only for a packet the connection may keep for itself (12-byte pong),*)
 (*    Recheck only if a packet handed out earlier still holds its payload,      *)
 (*    Quiesce only if nothing deliverable is left undelivered,                  *)
 (* and every step only if the invariants of Adnl hold afterwards.  The same run *)
@@ -98,7 +99,13 @@ TTrunc == /\ E.k = "Trunc" /\ E.at = got[E.d] /\ Truncate(E.d)
 \* a receiver handed out a payload: the specification's receiver must deliver exactly it, now
 TDlv == /\ E.k = "Dlv"
         /\ DeliverKind(E.d) = "pkt" /\ Look(E.d).payload = HexToBytes(E.hex)
+        /\ (E.d = "s2c" => Absorbs(Look(E.d).payload) # "yes")        \* a real pong never reaches the user
         /\ Deliver(E.d) /\ Same
+\* the client's connection kept a valid server->client packet for itself (its user never saw it): allowed only
+\* for the packets the specification lets it keep - a 12-byte tcp.pong, or (free) an authentication nonce
+TAbsorb == /\ E.k = "Absorb" /\ E.d = "s2c"
+           /\ DeliverKind("s2c") = "pkt" /\ Absorbs(Look("s2c").payload) # "no"
+           /\ Deliver("s2c") /\ Same
 \* a receiver reported failure: the specification's receiver must give up, now
 TDead == /\ E.k = "Dead"
          /\ DeliverKind(E.d) \in {"bad", "eof"}
@@ -122,7 +129,7 @@ TraceInit == /\ l \in Starts /\ seg = l
              /\ AInit /\ hsdmg = FALSE
 TraceNext == /\ l <= N
              /\ (l # seg => Trace[l].k # "Reset")
-             /\ (TReset \/ THs \/ TSeg \/ THsDlv \/ TSend \/ THdr \/ TCorrupt \/ TTrunc \/ TDlv \/ TDead \/ TRecheck \/ TQuiesce)
+             /\ (TReset \/ THs \/ TSeg \/ THsDlv \/ TSend \/ THdr \/ TCorrupt \/ TTrunc \/ TDlv \/ TAbsorb \/ TDead \/ TRecheck \/ TQuiesce)
              /\ Good'
              /\ Consume
 TraceSpec == TraceInit /\ [][TraceNext]_tvars
